@@ -26,7 +26,7 @@ splice contract clauses into them at a small number of fixed insertion points:
   //@ proof-after /regex/ { ... }         proof block after the single body line matching regex
   //@ ghost-before /regex/ let ghost x = e;   ghost snapshot statement (only `let ghost|tracked ..;` is accepted)
   //@ closure <n> ret <ident>: <Type>     n-th closure of the body gets a named return (N8)
-  //@ closure <n> ensures[TAGS] <expr>
+  //@ closure <n> ensures[TAGS] <expr>    (<n> may also be /regex/: the one closure whose text matches)
   //@ instantiate I=<type>                normalisation N5 (see DESIGN §4)
   //@ attr <text>                         extra attribute line in front of the fn (e.g. #[verifier::...])
   //@ region /start-regex/ /end-regex/ as <signature text>   (region extraction, see DESIGN §4)
@@ -627,10 +627,10 @@ def parse_template(path):
             cur.loops.setdefault(int(mm.group(1)), []).append(last)
             i += 1
             continue
-        mm = re.match(r"closure\s+(\d+)\s+(ret|requires|ensures)(?:\[([^\]]*)\])?\s+(.*)$", body, re.S)
+        mm = re.match(r"closure\s+(\d+|/(?:[^/\\]|\\.)+/)\s+(ret|requires|ensures)(?:\[([^\]]*)\])?\s+(.*)$", body, re.S)
         if mm:
             last = [mm.group(2), parse_tags(mm.group(3)), mm.group(4), i + 1]
-            cur.closures.setdefault(int(mm.group(1)), []).append(last)
+            cur.closures.setdefault(int(mm.group(1)) if mm.group(1).isdigit() else mm.group(1), []).append(last)
             i += 1
             continue
         mm = re.match(r"(proof-start)(?:\[([^\]]*)\])?\s+(.*)$", body, re.S)
@@ -869,7 +869,15 @@ def assemble_fn_(spec, bundle, out, canary=False):
     # ---- closures (N8: explicit return type + contract + braces around the unchanged body expression)
     if spec.closures:
         closures = find_closures(mask, body_open + 1, body_close)
-        for n, cl in sorted(spec.closures.items()):
+        for n, cl in sorted(spec.closures.items(), key=lambda kv: str(kv[0])):
+            if isinstance(n, str):
+                # addressed by a regex on the closure's (masked) text instead of its ordinal: an inserted or removed
+                # closure elsewhere in the body does not move the annotation
+                rx_c = n[1:-1]
+                hits = [k for k, c in enumerate(closures) if re.search(rx_c, mask[c[0]:c[3]])]
+                if len(hits) != 1:
+                    raise ExtractError("%s: closure /%s/ matches %d closures" % (where, rx_c, len(hits)))
+                n = hits[0] + 1
             if n > len(closures):
                 raise ExtractError("%s: closure %d not found (body has %d closures)" % (where, n, len(closures)))
             bar, after, cb, ce, is_block = closures[n - 1]
